@@ -18,7 +18,7 @@ recovery. In range_query the cursor starts at lower_bound(Included(start_key)), 
 (strict, so end is inclusive) or `len >= limit`, a stale / vanished value advances the cursor without pushing and any
 other error is returned. Not decided: completeness under concurrent churn.
 """
-DECIDED = ["hash index / ordered index pairing under the bucket guard, tree-first removal", "in-place slot swap on update",
+DECIDED = ['the ordered-index slot / node receives the same record as the hash entry at every publication site', "hash index / ordered index pairing under the bucket guard, tree-first removal", "in-place slot swap on update",
            "inclusive bounds and limit test of the scan; stale entries skipped, other errors returned"]
 NOT_DECIDED = ["completeness / no duplicates under concurrent writers (schedules)", "values returned are current (tier behaviour)"]
 ASSUMPTIONS = ["crossbeam SkipMap iteration is ordered by key (library contract)"]
